@@ -280,8 +280,17 @@ impl<'a, R: RealNumberInternalTrait> Interpreter<'a, R> {
                 ));
             }
             match procedure {
-                Procedure::Builtin(BuiltinProcedure { body, .. }) => {
-                    break body.apply(args, env);
+                Procedure::Builtin(BuiltinProcedure { name, body, .. }) => {
+                    if name == "apply" {
+                        // the procedure handed to apply is called from the trampoline, like any
+                        // other tail call, instead of from a nested apply_procedure
+                        let (tail_procedure, tail_args) =
+                            native::base::spread_apply_arguments(args)?;
+                        current_procedure = Some(tail_procedure);
+                        args = tail_args;
+                    } else {
+                        break body.apply(args, env);
+                    }
                 }
                 Procedure::User(SchemeProcedure(formals, definitions, expressions), closure) => {
                     let apply_result = Self::apply_scheme_procedure(
